@@ -137,11 +137,11 @@ def run(tier, seed, opens):
             script = [('key_for_path', 0, 0, 2), ('key_for_path', 0, 0, 1), ('new_key', 0), ('new_key', 0), ('new_keys3', 0), ('new_key', 0), ('get_keys', 0), ('new_account',),
                       ('new_key', 0), ('set_default_account', 1), ('new_key', 0), ('new_key_change', 0), ('get_key', 0), ('key_for_path', 0, 1, 3),
                       ('key_for_path', 0, 1, 1), ('reopen',), ('new_key_change', 0), ('new_key', 1), ('set_default_account', 0),
-                      ('full_path', 1, 0, 3), ('new_key', 1), ('new_key', 0),
+                      ('full_path', 1, 0, 3), ('new_key', 1), ('new_key', 0), ('get_keys_change', 0), ('get_key_change', 1), ('get_keys_change', 1),
                       ('get_keys', 0, 'other'), ('new_key', 0, 'other'), ('new_key', 0, 'other'), ('new_key_change', 0, 'other'), ('reopen',), ('new_key', 0, 'other')]
             for step in range(len(script) + n_steps):
                 forced = script[step] if step < len(script) else None
-                op = forced[0] if forced else rng.choice(['new_key', 'new_key', 'new_key_change', 'get_key', 'get_keys', 'key_for_path', 'key_for_path', 'new_account', 'reopen', 'new_keys3', 'full_path'])
+                op = forced[0] if forced else rng.choice(['new_key', 'new_key', 'new_key_change', 'get_key', 'get_keys', 'get_key_change', 'get_keys_change', 'key_for_path', 'key_for_path', 'new_account', 'reopen', 'new_keys3', 'full_path'])
                 acc = forced[1] if forced and len(forced) > 1 else rng.choice(sorted(accounts))
                 others = [t for t in ('legacy', 'p2sh-segwit', 'segwit') if t != wt]
                 if forced:
@@ -183,13 +183,31 @@ def run(tier, seed, opens):
                                 ok += 1
                             if r:
                                 have.add(r[2])
-                    elif op in ('get_key', 'get_keys'):
-                        ks = [w.get_key(account_id=acc, witness_type=rw)] if op == 'get_key' else w.get_keys(account_id=acc, number_of_keys=3, witness_type=rw)
+                    elif op in ('get_key', 'get_keys', 'get_key_change', 'get_keys_change'):
+                        chg = 1 if op.endswith('change') else 0
+                        if op == 'get_key':
+                            ks = [w.get_key(account_id=acc, witness_type=rw)]
+                        elif op == 'get_keys':
+                            ks = w.get_keys(account_id=acc, number_of_keys=3, witness_type=rw)
+                        elif op == 'get_key_change':
+                            ks = [w.get_key_change(account_id=acc, witness_type=rw)]
+                        else:
+                            ks = w.get_keys_change(account_id=acc, number_of_keys=3, witness_type=rw)
                         history.append('%s(account=%d%s)' % (op, acc, tag))
+                        got_idx = []
                         for k in ks:
-                            r = check_key(k, op, acc, 0, None, rw)
+                            r = check_key(k, op, acc, chg, None, rw)
                             if r:
-                                issued.setdefault((acc, 0, rw), set()).add(r[2])
+                                issued.setdefault((acc, chg, rw), set()).add(r[2])
+                                got_idx.append(r[2])
+                        if len(ks) > 1:
+                            # several unused keys asked for in one call: that many DIFFERENT keys, none handed out twice
+                            cases += 1
+                            if len(ks) != 3 or len({k.address for k in ks}) != len(ks) or len(set(got_idx)) != len(got_idx):
+                                fail(op, {'wallet': {'witness_type': wt, 'network': net, 'seed': sd.hex()}, 'history': list(history)},
+                                     '%d keys with address indices %s' % (len(ks), got_idx), '3 different keys')
+                            else:
+                                ok += 1
                     elif op == 'key_for_path':
                         change, idx = (forced[2], forced[3]) if forced else (rng.choice([0, 1]), rng.randrange(0, 7))
                         k = w.key_for_path([change, idx], account_id=acc, witness_type=rw)
